@@ -640,3 +640,28 @@ def floor_division_and_modulo(a, b):
 def arithmetic_and_comparisons(a, b):
     return (a - b) + b == a and a * 2 == a + a and (a < b) == (b > a) and (a <= b) == (not a > b) \
         and -(-a) == a
+
+
+# --- mixed-type comparisons, truthiness, isinstance with tuples ---------------------------------------------------------------
+@lemma(dict(a=Int(-2, 2), s=Str(), flag=Bool()), prop=["ENGINE"])
+def values_of_different_types_are_not_equal(a, s, flag):
+    n = None
+    return (a == s) is False and (s == n) is False and (a != n) and (n == None) \
+        and (flag == (not (not flag))) and ((a == 0) == (not a)) and ((s == "") == (not s)) and (not n)  # noqa: E711
+
+
+@lemma(dict(a=Int(-2, 2), s=Str(), flag=Bool()), prop=["ENGINE"])
+def isinstance_with_tuples_and_bool_is_an_int(a, s, flag):
+    v = a if flag else s
+    return isinstance(v, (int, str)) and isinstance(v, int) == flag and isinstance(v, str) == (not flag) \
+        and isinstance(flag, bool) and isinstance(flag, int) and not isinstance(a, bool) and not isinstance(None, (int, str))
+
+
+@lemma(dict(a=Int(-2, 2), b=Int(-2, 2)), prop=["ENGINE"])
+def tuples_and_default_arguments(a, b):
+    def f(x, y=10, *, z=3):
+        return (x, y, z)
+    t = f(a)
+    u = f(a, b, z=b)
+    return t == (a, 10, 3) and u[1] == b and u[2] == b and len(t) == 3 and t[0] == a and (a, b) == (a, b) \
+        and ((a, b) == (b, a)) == (a == b)
